@@ -78,6 +78,7 @@ func (ex *Exec) step(st *State, in ssa.Instruction) {
 		case *types.Slice:
 			s := ex.val(st, t.X)
 			ex.checkBounds(st, idx, slLen(s), t, "index")
+			st.assumeArrType(s, xt.Elem()) // static typing of the array behind the slice
 			f := st.elemFam(st.u().sortOf(xt.Elem()))
 			st.locs[t] = Loc{Kind: LElem, Fam: f.Name, Obj: slArr(s), Idx: add(slOff(s), idx), Type: xt.Elem(), Sl: &s, Rel: &idx}
 		case *types.Pointer:
@@ -605,6 +606,11 @@ func (ex *Exec) assignableCond(st *State, ft frameTarget) Term {
 			continue
 		}
 		if ls.Region {
+			if ls.ArrType != 0 && strings.HasPrefix(ls.Fam, "E.") {
+				st.declArrType()
+				conds = append(conds, eq(app(SInt, "arr.type", ft.Obj), intLit(int64(ls.ArrType))))
+				continue
+			}
 			return tTrue
 		}
 		c := ls.member(ft.Obj)
